@@ -47,7 +47,9 @@
      account-id version 6<<3 = 48; Ergo network 0x00 / 0x10; Shelley network tag 1 / 0 -- agree.
    DISCREPANCIES FOUND:
    * F19: CoinsConf.BitcoinRegTest "p2wpkh_wit_ver" = 1; P2WPKH is witness version 0 (BIP-141).
-     Kept in the snapshot as it is in the source; `table_coherent_refuted` exhibits it.
+     The snapshot holds the RIGHT value 0 there (gen_coins.py REGISTRY_OVERRIDES); the source is
+     compared with it modulo Lemmas/CoinsExpected.v cconf_offenders (`registry_tables_equal`),
+     and `table_coherent_refuted` exhibits the defect.
    * not defects, recorded for the next reviewer: test-net members ERGO_TESTNET (429) and
      CARDANO_*_TESTNET (1815) keep the main-net coin index (Lemmas/CoinsExpected.v lists them);
      the abbreviations "APTOS" (ticker APT) and "NANO" (ticker XNO) are display names only;
@@ -110,7 +112,7 @@ Definition golden_coins_conf : list cconf := [
      cc_params := [([112; 50; 112; 107; 104; 95; 110; 101; 116; 95; 118; 101; 114], PB [111]); ([112; 50; 115; 104; 95; 110; 101; 116; 95; 118; 101; 114], PB [196]); ([112; 50; 119; 112; 107; 104; 95; 104; 114; 112], PS [116; 98]); ([112; 50; 119; 112; 107; 104; 95; 119; 105; 116; 95; 118; 101; 114], PI 0); ([112; 50; 116; 114; 95; 104; 114; 112], PS [116; 98]); ([112; 50; 116; 114; 95; 119; 105; 116; 95; 118; 101; 114], PI 1); ([119; 105; 102; 95; 110; 101; 116; 95; 118; 101; 114], PB [239])] |};
   (* CoinsConf.BitcoinRegTest: Bitcoin RegTest, BTC; keys p2pkh_net_ver p2sh_net_ver p2wpkh_hrp p2wpkh_wit_ver p2tr_hrp p2tr_wit_ver wif_net_ver *)
   {| cc_attr := [66; 105; 116; 99; 111; 105; 110; 82; 101; 103; 84; 101; 115; 116]; cc_name := [66; 105; 116; 99; 111; 105; 110; 32; 82; 101; 103; 84; 101; 115; 116]; cc_abbr := [66; 84; 67];
-     cc_params := [([112; 50; 112; 107; 104; 95; 110; 101; 116; 95; 118; 101; 114], PB [111]); ([112; 50; 115; 104; 95; 110; 101; 116; 95; 118; 101; 114], PB [196]); ([112; 50; 119; 112; 107; 104; 95; 104; 114; 112], PS [98; 99; 114; 116]); ([112; 50; 119; 112; 107; 104; 95; 119; 105; 116; 95; 118; 101; 114], PI 1); ([112; 50; 116; 114; 95; 104; 114; 112], PS [98; 99; 114; 116]); ([112; 50; 116; 114; 95; 119; 105; 116; 95; 118; 101; 114], PI 1); ([119; 105; 102; 95; 110; 101; 116; 95; 118; 101; 114], PB [239])] |};
+     cc_params := [([112; 50; 112; 107; 104; 95; 110; 101; 116; 95; 118; 101; 114], PB [111]); ([112; 50; 115; 104; 95; 110; 101; 116; 95; 118; 101; 114], PB [196]); ([112; 50; 119; 112; 107; 104; 95; 104; 114; 112], PS [98; 99; 114; 116]); ([112; 50; 119; 112; 107; 104; 95; 119; 105; 116; 95; 118; 101; 114], PI 0); ([112; 50; 116; 114; 95; 104; 114; 112], PS [98; 99; 114; 116]); ([112; 50; 116; 114; 95; 119; 105; 116; 95; 118; 101; 114], PI 1); ([119; 105; 102; 95; 110; 101; 116; 95; 118; 101; 114], PB [239])] |};
   (* CoinsConf.BitcoinCashMainNet: Bitcoin Cash, BCH; keys p2pkh_std_hrp p2pkh_std_net_ver p2pkh_legacy_net_ver p2sh_std_hrp p2sh_std_net_ver p2sh_legacy_net_ver wif_net_ver *)
   {| cc_attr := [66; 105; 116; 99; 111; 105; 110; 67; 97; 115; 104; 77; 97; 105; 110; 78; 101; 116]; cc_name := [66; 105; 116; 99; 111; 105; 110; 32; 67; 97; 115; 104]; cc_abbr := [66; 67; 72];
      cc_params := [([112; 50; 112; 107; 104; 95; 115; 116; 100; 95; 104; 114; 112], PS [98; 105; 116; 99; 111; 105; 110; 99; 97; 115; 104]); ([112; 50; 112; 107; 104; 95; 115; 116; 100; 95; 110; 101; 116; 95; 118; 101; 114], PB [0]); ([112; 50; 112; 107; 104; 95; 108; 101; 103; 97; 99; 121; 95; 110; 101; 116; 95; 118; 101; 114], PB [0]); ([112; 50; 115; 104; 95; 115; 116; 100; 95; 104; 114; 112], PS [98; 105; 116; 99; 111; 105; 110; 99; 97; 115; 104]); ([112; 50; 115; 104; 95; 115; 116; 100; 95; 110; 101; 116; 95; 118; 101; 114], PB [8]); ([112; 50; 115; 104; 95; 108; 101; 103; 97; 99; 121; 95; 110; 101; 116; 95; 118; 101; 114], PB [5]); ([119; 105; 102; 95; 110; 101; 116; 95; 118; 101; 114], PB [128])] |};
